@@ -3,6 +3,7 @@ package harness
 import (
 	"context"
 	"fmt"
+	"github.com/jech/storrent/zzsim/refwire"
 	"time"
 
 	"github.com/jech/storrent/config"
@@ -18,7 +19,7 @@ import (
 func init() {
 	Register(&Scenario{
 		Name: "bookkeeping", Knobs: true, Props: []string{"C09"}, CrashTo: "C05", Also: map[string]int{"C05": 1}, // peers answer with over-long, misplaced, empty, corrupt blocks
-		Horizon: 3 * time.Hour, MaxSteps: 1500000, Weight: 1, Main: bookMain,
+		Horizon: 3 * time.Hour, MaxSteps: 1500000, Weight: 3, Main: bookMain,
 		NontrivialNeedsFault: true,
 	})
 }
@@ -59,6 +60,9 @@ func checkBookkeeping(rc *RunCtx, w *World, t *tor.Torrent, spec *TorSpec, when 
 		}
 		if rp == nil || !rp.Ready || rp.Cfg.OnMessage != nil || rp.rawAdvertised || rp.Cfg.Advertise == 3 {
 			continue
+		}
+		if !p.SimHasInfo() {
+			continue // (magnet link: a have-all cannot be spelt out before the piece count is known)
 		}
 		bm := p.SimBitmap()
 		for i := 0; i < np; i++ {
@@ -147,10 +151,16 @@ func bookMain(rc *RunCtx) {
 	spec := GenTorSpec(st, SpecOpts{MaxPieces: 8, Big: st.Bool(1, 6), MultiFile: 1, Huge: true})
 	config.PrefetchRate = float64(simrt.Pick(st, 0, 65536, 768*1024))
 	config.SetIdleRate(uint32(simrt.Pick(st, 65536, 0, 16384, 1<<20)))
-	t, err := w.AddTorrent(spec, false, "")
+	// one run in six starts from a magnet link: peers advertise before the
+	// metadata (which they serve) is known
+	magnet := !spec.Sparse && st.Bool(1, 6)
+	t, err := w.AddTorrent(spec, magnet, "")
 	if err != nil {
 		rc.Fail("C09", "setup", "", "AddTorrent: %v", err)
 		return
+	}
+	if magnet {
+		simrt.Probe("torrent-from-magnet-link")
 	}
 	w.Link = func() (simnet.LinkCfg, simnet.LinkCfg) { return drawSysLink(st) }
 	npeers := 1 + st.Choice(5)
@@ -170,6 +180,13 @@ func bookMain(rc *RunCtx) {
 	for u := 0; u < nreaders; u++ {
 		off := spec.DrawOffset(st)
 		simrt.GoNamed(fmt.Sprintf("reader%d", u), func() {
+			// (front-ends open readers only on torrents whose metadata is known)
+			for !t.InfoComplete() {
+				if w.stopped {
+					return
+				}
+				simrt.Sleep(time.Second)
+			}
 			r := t.NewReader(ctx, off, spec.Geo.Length-off)
 			defer r.Close()
 			buf := make([]byte, 40000)
@@ -197,7 +214,24 @@ func bookMain(rc *RunCtx) {
 				live = append(live, p)
 			}
 		}
-		switch ev := st.Weighted(4, 2, 2, 2, 2, 2, 1, 1); {
+		switch ev := st.Weighted(4, 2, 2, 2, 2, 2, 1, 1, 1); {
+		case ev == 8 && len(live) > 0:
+			// a peer that announces its pieces all over again, another way
+			p := live[st.Choice(len(live))]
+			simrt.Fault("peer-advertises-again")
+			all := true
+			for _, h := range p.Have {
+				all = all && h
+			}
+			switch {
+			case all && p.Cfg.Fast && p.SysHS.Fast() && st.Bool(1, 2):
+				rc.Tracef("%s sends have-all again", p.Cfg.Name)
+				p.Send(refwire.HaveAll{})
+			default:
+				rc.Tracef("%s sends its bitfield again", p.Cfg.Name)
+				p.Send(refwire.Bitfield{Bits: p.bitfield()})
+			}
+			p.noteAdvertised()
 		case ev == 1 && len(live) > 0:
 			p := live[st.Choice(len(live))]
 			simrt.Fault("peer-disconnect")
